@@ -293,6 +293,18 @@ def o6(h, st):
         h.check(f"tapering H + 0.37 * {word} (term anticommuting with {k} generator(s)): every eigenvalue belongs to H" + (" + the term" if k == 0 else " alone (the term is dropped)"),
                 all(np.min(np.abs(ev_s - e)) < 1e-7 for e in ev_t), detail=f"max distance {max(float(np.min(np.abs(ev_s - e))) for e in ev_t):.3e}")
     # (which classes the probe terms fall into depends on the generators found for this molecule / encoding: recorded, not required)
+    # tapering is LINEAR: for operators c * H with purely imaginary, negative, complex and tiny c (H commutes with every generator) the tapered operator is c times the
+    # tapered Hamiltonian, term by term - whatever the values of the coefficients are (an anti-Hermitian generator has purely imaginary coefficients)
+    def terms_of(t):
+        tq = t.qubitoperator if hasattr(t, "qubitoperator") else t
+        return {w: complex(c) for w, c in tq.terms.items() if abs(c) > 1e-12}
+    base = terms_of(h.call(TQ, "QubitTapering.z2_tapering", tap, H))
+    for c in (1j, -1.0, 0.3 + 0.7j, -0.5j, 1e-3):
+        op = QubitOperator()
+        op.terms = {w: c * v for w, v in H.terms.items()}
+        got = terms_of(h.call(TQ, "QubitTapering.z2_tapering", tap, op))
+        dev = max([abs(got.get(w, 0) - c * base.get(w, 0)) for w in set(got) | set(base)] + [0.0])
+        h.check(f"z2_tapering({c} * H) == {c} * z2_tapering(H), term by term", dev < 1e-9 * max(1.0, abs(c)), detail=f"max deviation {dev:.3e}; {len(got)} vs {len(base)} terms")
     h.done()
 
 
